@@ -88,7 +88,7 @@ pub struct Stream {
     pub limit: usize,
     /// claimed number of fragments per packet
     pub nfrag: usize,
-    /// 0: ids walk inside the window; 1: ids at the window edge; 2: ids outside the window; 3: one fragment each of many packets then sync frames push the window; 4: ids walk inside the window and the only fragment ever sent of each packet is its last one, 0 or 1 bytes long
+    /// 0: ids walk inside the window; 1: ids at the window edge; 2: ids outside the window; 3: one fragment each of many packets then sync frames push the window; 4: ids walk inside the window and the only fragment ever sent of each packet is its last one, 0 or 1 bytes long; 5: complete 2-3 fragment packets behind a Reliable packet that never arrives
     pub walk: u8,
     /// frame id stride
     pub stride: u32,
@@ -134,6 +134,25 @@ pub fn run_stream(s: &Stream) -> (Vec<Violation>, u64, Option<String>) {
                 drop(fs);
             }
             let base = hc.verif_probe().rx_packet_base;
+            // walk 5: complete 2-3 fragment packets queue up behind a Reliable packet that never arrives (ids base+1, base+2, ...)
+            if s.walk == 5 {
+                let nf = s.nfrag.clamp(2, 3);
+                let pk = (k / nf) as u32 % 4095 + 1;
+                let dg = Datagram { sequence_id: (base + pk) & 0xFFFFF, channel_id: 0, window_parent_lead: pk as u16, channel_parent_lead: pk as u16, fragment_id: (k % nf) as u16, fragment_id_last: (nf - 1) as u16, data: junk[..FRAG].into() };
+                set_fuel(2_000_000);
+                hc.handle_data_frame(DataFrame { sequence_id: fid, nonce: k % 2 == 0, datagrams: vec![dg] });
+                fid = fid.wrapping_add(s.stride);
+                if k % burst == burst - 1 { hc.step(); let mut ps = PS(vec![]); hc.receive(&mut ps); delivered += ps.0.len() as u64; drop(ps); }
+                set_fuel(u64::MAX);
+                let p = hc.verif_probe();
+                let live = alloc::live() - baseline;
+                if live > worst { worst = live; }
+                worst_alloc = worst_alloc.max(p.rx_alloc); worst_ackq = worst_ackq.max(p.ack_queue_len);
+                if p.rx_alloc as isize > limit_c && !facts.iter().any(|f| f.0 == 0) { alloc::set_tracking(false); facts.push((0, k + 1, live, p.rx_alloc, p.ack_queue_len)); alloc::set_tracking(true); }
+                if live > allow && !facts.iter().any(|f| f.0 == 1) { alloc::set_tracking(false); facts.push((1, k + 1, live, p.rx_alloc, p.ack_queue_len)); alloc::set_tracking(true); }
+                if k % 97 == 0 { h = fnv(h, p.rx_alloc as u64); h = fnv(h, p.ack_queue_len as u64); }
+                continue;
+            }
             let pid = match s.walk { 0 => (base + pid_off % 4096) & 0xFFFFF, 1 => (base + 4095 - (pid_off % 2)) & 0xFFFFF, 2 => (base + 4096 + pid_off % 7) & 0xFFFFF, _ => (base + pid_off % 4096) & 0xFFFFF };
             pid_off = pid_off.wrapping_add(1);
             let fragment_id = if s.walk == 3 { 0 } else if s.walk == 4 { (s.nfrag - 1) as u16 } else { (k % s.nfrag.max(1)).min(s.nfrag.saturating_sub(2)) as u16 }; // never the last fragment: packets never complete
@@ -184,7 +203,7 @@ pub fn streams(quick: bool) -> Vec<Stream> {
     let limits: &[usize] = if quick { &[1, 4000, 1_000_000] } else { &[1, 1448, 4000, 1_000_000] };
     let nfrags: &[usize] = if quick { &[1, 3, 691, 65536] } else { &[1, 2, 3, 691, 65536] };
     let strides: &[u32] = if quick { &[1, 33] } else { &[1, 31, 32, 33] };
-    for &limit in limits { for &nfrag in nfrags { for walk in 0..5u8 { for &stride in strides { for cadence in 0..3u8 { for flush in 0..3u8 {
+    for &limit in limits { for &nfrag in nfrags { for walk in 0..6u8 { for &stride in strides { for cadence in 0..3u8 { for flush in 0..3u8 {
         if quick && (walk == 2 && stride != 1) { continue; }
         let frames = if quick { 3 * 4096 + 100 } else { 10 * 4096 };
         out.push(Stream { limit, nfrag, walk, stride, cadence, flush, frames });
@@ -225,7 +244,7 @@ pub fn build(quick: bool) -> PropRun {
     }
     PropRun { level: "fault_enumeration", scenarios: scs, units, replay_case: Some(replay_case), summary: Summary {
         rule: "(a) every stream of the generator grid (receiver limit x claimed fragment count x id walk x frame id stride x frames per application round x step spacing; every round is flush, frames, step, receive as Client::step/Server::step perform it), 3-10 windows long, is fed to a lone real receiving HalfConnection under a counting allocator: receive-alloc counter <= limit rounded to a fragment, heap growth above the empty connection <= limit + fixed allowance, acknowledgement queue <= 2 windows, nothing leaked; (b) deviation-bounded link-world exploration with small limits: bytes outstanding on the wire never exceed the peer's limit, never more than a window of packets, no packet discarded for lack of memory; distinct = distinct outcome hash".into(),
-        bounds: json!({"limits": [1, 1448, 4000, 1_000_000], "claimed_fragments": [1, 2, 3, 691, 65536], "id_walks": ["inside window", "window edge", "outside window", "one fragment each + sync frames", "short last fragment first"], "frame_id_strides": [1, 31, 32, 33], "frames_between_steps": [1, 50, 5000], "step_spacing_ms": [1, 20, 1000], "frames_per_stream": if quick { 3 * 4096 + 100 } else { 10 * 4096 }, "sender_d": if quick { 2 } else { 3 }}),
+        bounds: json!({"limits": [1, 1448, 4000, 1_000_000], "claimed_fragments": [1, 2, 3, 691, 65536], "id_walks": ["inside window", "window edge", "outside window", "one fragment each + sync frames", "short last fragment first", "complete multi-fragment packets behind a Reliable packet that never arrives"], "frame_id_strides": [1, 31, 32, 33], "frames_between_steps": [1, 50, 5000], "step_spacing_ms": [1, 20, 1000], "frames_per_stream": if quick { 3 * 4096 + 100 } else { 10 * 4096 }, "sender_d": if quick { 2 } else { 3 }}),
         assumptions: vec!["heap allowance above max_receive_alloc: 4*4096 ack groups of 12 B, 64 B per fragment of limit, two frames, 64 kB slack - a closed formula, not measured; streams are several windows long so that any structure growing with the stream exceeds it".into(),
                           "the allocator counts requested sizes (not allocator-internal rounding) of blocks obtained by the thread while the connection exists".into()],
         witness_names: WITNESSES.to_vec(), extra: json!({}), exhaustive: true } }
